@@ -977,7 +977,7 @@ KNOWN_DEFECT_pmatrx_order3_production_unreadable = False  # recorded in known_fi
 # reduction of numpy data yields, e.g. hasGammaHeating = heating.any()) is written as 0, so the record it announces is
 # still written but never read (the file is misread from there on).  With the flag True the flags of the container are
 # Python bools only; see KNOWN_DEFECT_rwBool_drops_numpy_bool in C09_cccc.py (record-level obligation, reproduction).
-KNOWN_DEFECT_pmatrx_numpy_bool_flags_written_false = True
+KNOWN_DEFECT_pmatrx_numpy_bool_flags_written_false = False  # repaired in /repo (fix: afedb36)
 _FLAG_TYPES = ["bool"] + ([] if KNOWN_DEFECT_pmatrx_numpy_bool_flags_written_false else ["numpy.bool_"])
 
 
